@@ -41,7 +41,7 @@ func VerifHarness_C09_server_raw() {
 // content (plus credentials that may or may not verify). Unknown comprehension-required attributes
 // are answered 420 with the request's method and transaction id.
 //
-//verif:props=C09,C19 unwind=80 bounds="method: quick {Allocate, ChannelBind, Send, CreatePermission}, thorough all 9; one attribute out of 11 TURN/unknown types with an arbitrary value of 0..8 bytes; credentials present with arbitrary verdicts"
+//verif:props=C09,C19 replay=model unwind=80 bounds="method: quick {Allocate, ChannelBind, Send, CreatePermission}, thorough all 9; one attribute out of 11 TURN/unknown types with an arbitrary value of 0..8 bytes; credentials present with arbitrary verdicts"
 func VerifHarness_C09_server_structured() {
 	s := vNewSrv(true, true)
 	src := allocation.VUDPAddr4()
